@@ -44,11 +44,11 @@ type vPPEntry struct {
 }
 
 type vPPVersions struct {
-	Kind      string      `json:"kind"`
-	Local     []vPPEntry  `json:"local"`
-	Remote    []vPPEntry  `json:"remote"`
-	Accepted  bool        `json:"accepted"`
-	NoOverlap bool        `json:"noOverlap"`
+	Kind      string     `json:"kind"`
+	Local     []vPPEntry `json:"local"`
+	Remote    []vPPEntry `json:"remote"`
+	Accepted  bool       `json:"accepted"`
+	NoOverlap bool       `json:"noOverlap"`
 }
 
 // vRunVersions feeds one version matrix to the real verifyProtocol
@@ -94,18 +94,18 @@ type vPPLine struct {
 	Ev   string `json:"ev"`
 	Case int    `json:"case"`
 	vPPCase
-	CutAt     int    `json:"cutAt"` // byte offset of the cut (-1: none)
-	Total     int    `json:"total"` // length of the message in the failing direction
-	JoinErr   string `json:"joinErr"`
-	IChanged  bool   `json:"iChanged"`
-	HChanged  bool   `json:"hChanged"`
-	IListsH   bool   `json:"iListsH"`
-	IListsH2  bool   `json:"iListsH2"` // a member the host reported alive
-	IListsH3  bool   `json:"iListsH3"` // a member the host reported dead
-	HListsI   bool   `json:"hListsI"`
-	IMerges   int    `json:"iMerges"` // delegate MergeRemoteState calls
-	HMerges   int    `json:"hMerges"`
-	Note      string `json:"note"`
+	CutAt    int    `json:"cutAt"` // byte offset of the cut (-1: none)
+	Total    int    `json:"total"` // length of the message in the failing direction
+	JoinErr  string `json:"joinErr"`
+	IChanged bool   `json:"iChanged"`
+	HChanged bool   `json:"hChanged"`
+	IListsH  bool   `json:"iListsH"`
+	IListsH2 bool   `json:"iListsH2"` // a member the host reported alive
+	IListsH3 bool   `json:"iListsH3"` // a member the host reported dead
+	HListsI  bool   `json:"hListsI"`
+	IMerges  int    `json:"iMerges"` // delegate MergeRemoteState calls
+	HMerges  int    `json:"hMerges"`
+	Note     string `json:"note"`
 }
 
 type vPPDelegate struct {
@@ -115,11 +115,13 @@ type vPPDelegate struct {
 	veto   bool
 }
 
-func (d *vPPDelegate) NodeMeta(int) []byte                   { return []byte("meta-" + d.name) }
-func (d *vPPDelegate) NotifyMsg([]byte)                      {}
-func (d *vPPDelegate) GetBroadcasts(int, int) [][]byte       { return nil }
-func (d *vPPDelegate) LocalState(join bool) []byte           { return []byte("USERSTATE-of-" + d.name + "-0123456789") }
-func (d *vPPDelegate) MergeRemoteState(buf []byte, _ bool)   { d.mu.Lock(); d.merges++; d.mu.Unlock() }
+func (d *vPPDelegate) NodeMeta(int) []byte             { return []byte("meta-" + d.name) }
+func (d *vPPDelegate) NotifyMsg([]byte)                {}
+func (d *vPPDelegate) GetBroadcasts(int, int) [][]byte { return nil }
+func (d *vPPDelegate) LocalState(join bool) []byte {
+	return []byte("USERSTATE-of-" + d.name + "-0123456789")
+}
+func (d *vPPDelegate) MergeRemoteState(buf []byte, _ bool) { d.mu.Lock(); d.merges++; d.mu.Unlock() }
 func (d *vPPDelegate) NotifyMerge(peers []*Node) error {
 	if d.veto {
 		return fmt.Errorf("merge vetoed")
@@ -192,10 +194,10 @@ func (n *vPPNode) lists(name string) bool {
 }
 
 type vPPSetup struct {
-	I, H   *vPPNode
-	nw     *vNet
-	i2h    int
-	h2i    int
+	I, H *vPPNode
+	nw   *vNet
+	i2h  int
+	h2i  int
 }
 
 // vPPPair builds the two nodes of a case
